@@ -154,3 +154,203 @@ def with_request_helpers(F, fn):
     """the handler body with helpers that receive `&mut` of a request / header map analysed in place"""
     new, _ = inline_calls(F, fn, takes_mut_of(["http::Request<", "HeaderMap"]))
     return new
+
+
+# ----------------------------------------------------------------------------------------
+# helpers that did not exist when the rules were confirmed are analysed in place (sync and `async fn` awaited at once)
+
+def _splice(fn, body, short, mp_place, dp, on_return, unwind):
+    """append body's blocks to fn with places mapped by mp_place and block ids shifted; `return` blocks become on_return(term) ->
+    (extra statements, new terminator). Returns the new entry block id."""
+    db = len(fn["blocks"])
+
+    def mo(o):
+        if not isinstance(o, dict):
+            return o
+        if o.get("k") in ("copy", "move"):
+            return dict(o, p=mp_place(o["p"]))
+        if "promoted" in o:
+            return dict(o, promoted=o["promoted"] + dp)
+        return o
+
+    def mrv(rv):
+        rv = dict(rv)
+        k = rv["k"]
+        if k in ("ref", "discr") or (k not in ("use", "cast", "repeat", "agg", "bin", "un") and "p" in rv):
+            rv["p"] = mp_place(rv["p"])
+        if k in ("use", "cast", "repeat"):
+            rv["o"] = mo(rv["o"])
+        elif k == "agg":
+            rv["ops"] = [mo(o) for o in rv["ops"]]
+        elif k == "bin":
+            rv["a"], rv["b"] = mo(rv["a"]), mo(rv["b"])
+        elif k == "un":
+            rv["a"] = mo(rv["a"])
+        return rv
+
+    for cb in copy.deepcopy(body["blocks"]):
+        nb = {"cleanup": cb["cleanup"], "stmts": [], "term": None}
+        for st in cb["stmts"]:
+            s2 = dict(st)
+            if st["k"] == "assign":
+                s2["lhs"] = mp_place(st["lhs"])
+                s2["rv"] = mrv(st["rv"])
+            nb["stmts"].append(s2)
+        ct = dict(cb["term"])
+        k = ct["k"]
+        for key in ("target", "unwind", "imaginary", "drop"):
+            if isinstance(ct.get(key), int) and not isinstance(ct.get(key), bool):
+                ct[key] = ct[key] + db
+        if k == "call":
+            ct["args"] = [mo(a) for a in ct["args"]]
+            ct["dest"] = mp_place(ct["dest"])
+            if ct["f"].get("k") in ("copy", "move"):
+                ct["f"] = mo(ct["f"])
+        elif k == "switch":
+            ct["d"] = mo(ct["d"])
+            ct["targets"] = [[v, tg + db] for v, tg in ct["targets"]]
+            if isinstance(ct.get("otherwise"), int):
+                ct["otherwise"] = ct["otherwise"] + db
+        elif k == "drop":
+            ct["p"] = mp_place(ct["p"])
+        elif k == "assert":
+            ct["cond"] = mo(ct["cond"])
+            if ct.get("ops"):
+                ct["ops"] = [mo(a) for a in ct["ops"]]
+        elif k == "yield":
+            ct["value"] = mo(ct["value"])
+            if isinstance(ct.get("resume_arg"), dict):
+                ct["resume_arg"] = mp_place(ct["resume_arg"])
+        elif k == "return":
+            extra, ct = on_return(ct)
+            nb["stmts"] += extra
+        elif k == "resume":
+            if isinstance(unwind, int):
+                ct = {"k": "goto", "target": unwind, "file": ct.get("file"), "line": ct.get("line"), "exp": None}
+        nb["term"] = ct
+        fn["blocks"].append(nb)
+    return db
+
+
+def inline_async_call(F, fn, bi, cid, cf):
+    """the call at block bi creates the future of `async fn cid`, awaited at once: run the coroutine body where the future is polled.
+    Returns True when the caller was rewritten."""
+    B = mir.Body(fn, F)
+    aw = B.await_of(bi)
+    body = F.fns.get(cid + "::{closure#0}")
+    if aw is None or body is None:
+        return False
+    pb, pd = aw
+    t = fn["blocks"][bi]["term"]
+    pt = fn["blocks"][pb]["term"]
+    if pt["k"] != "call" or not isinstance(pt.get("target"), int):
+        return False
+    short = cid.rsplit("::", 1)[-1]
+    dl, dp = len(fn["locals"]), len(fn.get("promoted", []))
+    for l in body["locals"]:
+        l2 = dict(l)
+        if l2.get("name"):
+            l2["name"] = "<%s>%s" % (short, l2["name"])
+        fn["locals"].append(l2)
+    fn.setdefault("promoted", [])
+    fn["promoted"] += copy.deepcopy(body.get("promoted", []))
+    # one local per argument: the coroutine reads its captured arguments as fields of _1
+    abase = len(fn["locals"])
+    for i, a in enumerate(t["args"]):
+        pl = cf["locals"][i + 1] if i + 1 < len(cf["locals"]) else {"ty": "?"}
+        fn["locals"].append({"ty": pl.get("ty", "?"), "name": "<%s>%s" % (short, pl.get("name") or "arg%d" % i)})
+        fn["blocks"][bi]["stmts"].append({"k": "assign", "lhs": {"l": abase + i, "p": []}, "rv": {"k": "use", "o": a}, "line": t.get("line"), "exp": None})
+    nargs = len(t["args"])
+
+    def mp(p):
+        if p["l"] == 1 and p["p"] and isinstance(p["p"][0], dict) and "f" in p["p"][0] and p["p"][0]["f"] < nargs:
+            base, rest = abase + p["p"][0]["f"], p["p"][1:]
+        else:
+            base, rest = p["l"] + dl, p["p"]
+        q_ = {"l": base, "p": []}
+        for e in rest:
+            if isinstance(e, dict) and "i" in e:
+                e = dict(e, i=e["i"] + dl)
+            q_["p"].append(e)
+        return q_
+
+    cont = pt["target"]
+
+    def on_return(ct):
+        st = {"k": "assign", "lhs": {"l": pd, "p": []},
+              "rv": {"k": "agg", "ak": "adt", "adt": "std::task::Poll", "variant": "Ready", "fields": ["0"], "ops": [{"k": "move", "p": {"l": dl, "p": []}}]},
+              "line": ct.get("line"), "exp": None}
+        return [st], {"k": "goto", "target": cont, "file": ct.get("file"), "line": ct.get("line"), "exp": None}
+
+    entry = _splice(fn, body, short, mp, dp, on_return, pt.get("unwind"))
+    fn["blocks"][pb]["term"] = {"k": "goto", "target": entry, "file": pt.get("file"), "line": pt.get("line"), "exp": pt.get("exp")}
+    # the future is complete when the body returns: the Pending arm of the await's match is dead
+    cb = fn["blocks"][cont]
+    ctm = cb["term"]
+    if ctm["k"] == "switch":
+        ready = [tg for v, tg in ctm["targets"] if v == mir.STD_VARIANTS["Ready"]]
+        d = ctm["d"]
+        is_discr_of_pd = False
+        if d.get("k") in ("copy", "move"):
+            for st in cb["stmts"]:
+                if st["k"] == "assign" and st["lhs"] == d["p"] and st["rv"]["k"] == "discr" and st["rv"]["p"]["l"] == pd:
+                    is_discr_of_pd = True
+        if ready and is_discr_of_pd:
+            cb["term"] = {"k": "goto", "target": ready[0], "file": ctm.get("file"), "line": ctm.get("line"), "exp": ctm.get("exp")}
+    # the creating call itself is gone (its result is only the future polled above)
+    fn["blocks"][bi]["term"] = {"k": "goto", "target": t["target"], "file": t.get("file"), "line": t.get("line"), "exp": None} if isinstance(t.get("target"), int) else t
+    fn.setdefault("inlined", []).append({"callee": cid, "entry": entry, "dest_local": None, "sites": {}, "async": True})
+    return True
+
+
+def inline_new_helpers(F, known, crates):
+    """rewrite F.fns in place: every call of a free / inherent function that is not in `known` (the function ids of the tree the rules
+    were confirmed on) is analysed in place in its caller; helpers with no call left are dropped from the view. Returns the report."""
+    new = {fid for fid, f in F.fns.items() if f["kind"] in ("Fn", "AssocFn") and f.get("crate") in crates and fid not in known and not fid.startswith("<")}
+    rep = {"new": sorted(new), "inlined": [], "kept": []}
+    if not new:
+        return rep
+    sync_pred = lambda cid, cf, t: cid in new
+    for _ in range(4):
+        changed = False
+        for fid in list(F.fns):
+            fn = F.fns[fid]
+            calls = [(bi, (mir.callee_of(b["term"])[1] or mir.callee_of(b["term"])[0])) for bi, b in enumerate(fn["blocks"]) if b["term"]["k"] == "call"]
+            hit = [(bi, c) for bi, c in calls if c in new and c != fid and not fid.startswith(c + "::")]
+            if not hit:
+                continue
+            cur = fn
+            if any(not F.fns[c].get("is_async") for _, c in hit):
+                cur, done = inline_calls(F, cur, sync_pred, max_rounds=1)
+                for c in done:
+                    rep["inlined"].append((fid, c))
+                    changed = True
+            else:
+                cur = copy.deepcopy(cur)
+            for bi, c in hit:
+                cf = F.fns[c]
+                if cf.get("is_async") and cur["blocks"][bi]["term"]["k"] == "call":
+                    if inline_async_call(F, cur, bi, c, cf):
+                        rep["inlined"].append((fid, c))
+                        changed = True
+            cur["crate"] = fn.get("crate")
+            F.fns[fid] = cur
+        if not changed:
+            break
+    # drop helpers nobody calls any more
+    still = set()
+    for fid, fn in F.fns.items():
+        for b in fn["blocks"]:
+            if b["term"]["k"] == "call":
+                w, r = mir.callee_of(b["term"])
+                c = r or w
+                if c in new and fid != c and not fid.startswith(c + "::"):
+                    still.add(c)
+    for c in sorted(new):
+        if c in still or not any(x[1] == c for x in rep["inlined"]):
+            rep["kept"].append(c)
+            continue
+        f = F.fns.pop(c, None)
+        if f is not None and f.get("is_async"):
+            F.fns.pop(c + "::{closure#0}", None)
+    return rep
